@@ -123,6 +123,25 @@ func hsScenario(spec *hsSpec) *Scenario {
 			switch spec.SilentPeer {
 			case 1:
 				m.W.blackhole[0] = true
+			case 3:
+				// the first COOKIE-ACK arrives only after the client has given up; the rest are lost
+				n := 0
+				isCA := func(p *wpkt) bool {
+					return p.dec != nil && len(p.dec.Chunks) > 0 && p.dec.Chunks[0].Typ == wCOOKIEACK
+				}
+				m.W.killFn = func(p *wpkt) bool {
+					if isCA(p) {
+						n++
+						return n > 1
+					}
+					return false
+				}
+				m.W.delayFn = func(p *wpkt) time.Duration {
+					if isCA(p) && n == 1 {
+						return 45 * time.Second
+					}
+					return 0
+				}
 			case 2:
 				m.W.killFn = func(p *wpkt) bool {
 					if p.dec == nil {
@@ -177,6 +196,10 @@ func hsScenario(spec *hsSpec) *Scenario {
 				m.S.Join(tb)
 			}
 			m.Observe("errA=%v errB=%v", m.Err[0], m.Err[1])
+			if spec.SilentPeer == 3 {
+				// let the stale COOKIE-ACK arrive at the client whose connect call already failed
+				m.Sleep(60 * time.Second)
+			}
 			if spec.SilentPeer != 0 {
 				// a failed connect leaves the transport to its owner: close it, everything must stop
 				(&wconn{w: m.W, id: 0}).Close()
@@ -255,7 +278,7 @@ func hsScenario(spec *hsSpec) *Scenario {
 				// bounded number of handshake transmissions, error reported, bounded time
 				want := ErrHandshakeInitAck
 				typ := uint8(wINIT)
-				if spec.SilentPeer == 2 {
+				if spec.SilentPeer >= 2 {
 					want = ErrHandshakeCookieEcho
 					typ = wCOOKIEECHO
 				}
@@ -378,8 +401,11 @@ func propC04(j *Job) {
 		}
 	}
 	// silent peer and lost COOKIE-ACKs
-	for sp := 1; sp <= 2; sp++ {
+	for sp := 1; sp <= 3; sp++ {
 		for _, rto := range []float64{4000, 0} {
+			if sp == 3 && rto == 0 {
+				continue
+			}
 			spec := &hsSpec{A: epCfg{RTOMax: rto, InitTSN: 77}, B: epCfg{Server: true, RTOMax: rto, InitTSN: 99}, SilentPeer: sp}
 			j.Explore(fmt.Sprintf("hs/silent%d/rtomax%v", sp, rto), hsScenario(spec), Budget{}, nil)
 		}
